@@ -243,6 +243,38 @@ pub fn boundary_inputs(out: &mut Vec<(bool, Vec<u8>)>) {
                 out.push((false, wrap(&p, 1)));
             }
         }
+        // two consecutive arguments equal under `==` but not bit for bit (float zero signs), and exact duplicates
+        for (ti, a, b) in [(0x83u32, u32b(0).to_vec(), u32b(0x8000_0000).to_vec()), (0x83, u32b(0x8000_0000).to_vec(), u32b(0).to_vec()),
+                           (0x84, u64b(0).to_vec(), u64b(0x8000_0000_0000_0000).to_vec()), (0x83, u32b(0x3f80_0000).to_vec(), u32b(0x3f80_0000).to_vec())] {
+            let mut p = u32b(ti).to_vec();
+            p.extend_from_slice(&a);
+            p.extend_from_slice(&u32b(ti));
+            p.extend_from_slice(&b);
+            out.push((false, wrap(&p, 2)));
+        }
+        {
+            // fixed point: quantization +0.0 then -0.0
+            let mut p = vec![];
+            for q in [0u32, 0x8000_0000] {
+                p.extend_from_slice(&u32b(0x1043));
+                p.extend_from_slice(&u32b(q));
+                p.extend_from_slice(&u32b(7));
+                p.extend_from_slice(&u32b(5));
+            }
+            out.push((false, wrap(&p, 2)));
+        }
+        // long strings of multi-byte characters at every alignment (anything that cuts text at a byte offset)
+        for pre in 0..4usize {
+            for (ch, count) in [("€", 1400usize), ("é", 2100), ("𝄞", 1100)] {
+                let mut text = "a".repeat(pre);
+                text.push_str(&ch.repeat(count));
+                let mut p = u32b(0x8200).to_vec();
+                p.extend_from_slice(&u16b((text.len() + 1) as u16));
+                p.extend_from_slice(text.as_bytes());
+                p.push(0);
+                out.push((false, wrap(&p, 1)));
+            }
+        }
         // name size 0 / 1 on bool, string, raw with VARI; string size 0 / 1
         for ti in [0x810u32, 0xa00, 0xc00] {
             for (sz, nsz) in [(0u16, 0u16), (1, 0), (0, 1), (1, 1), (2, 0)] {
